@@ -15,19 +15,19 @@ func remote(p string) string { return "https://" + hostB + p }
 func other(p string) string  { return "https://" + hostC + p }
 
 var (
-	alice        = local("/users/alice")
-	aliceInbox   = local("/users/alice/inbox")
-	aliceOutbox  = local("/users/alice/outbox")
+	alice          = local("/users/alice")
+	aliceInbox     = local("/users/alice/inbox")
+	aliceOutbox    = local("/users/alice/outbox")
 	aliceFollowers = local("/users/alice/followers")
 	aliceFollowing = local("/users/alice/following")
-	aliceLiked   = local("/users/alice/liked")
-	dave         = local("/users/dave")
-	daveInbox    = local("/users/dave/inbox")
-	bob          = remote("/users/bob")
-	bobInbox     = remote("/users/bob/inbox")
-	carol        = other("/users/carol")
-	carolInbox   = other("/users/carol/inbox")
-	publicIRI    = "https://www.w3.org/ns/activitystreams#Public"
+	aliceLiked     = local("/users/alice/liked")
+	dave           = local("/users/dave")
+	daveInbox      = local("/users/dave/inbox")
+	bob            = remote("/users/bob")
+	bobInbox       = remote("/users/bob/inbox")
+	carol          = other("/users/carol")
+	carolInbox     = other("/users/carol/inbox")
+	publicIRI      = "https://www.w3.org/ns/activitystreams#Public"
 )
 
 type sgen struct{ r *rng }
@@ -51,15 +51,15 @@ func (g *sgen) baseWorld() J {
 		"owned": []interface{}{alice, dave, aliceInbox, aliceOutbox, aliceFollowers, aliceFollowing, aliceLiked,
 			local("/notes/1"), local("/notes/2"), local("/col/1"), local("/col/2"), local("/ocol/1"), local("/activities/f1")},
 		"store": J{
-			alice:              actorDoc(alice, aliceInbox),
-			dave:               actorDoc(dave, daveInbox),
-			local("/notes/1"):  J{"type": "Note", "id": local("/notes/1"), "content": "one", "attributedTo": alice},
-			local("/notes/2"):  J{"type": "Note", "id": local("/notes/2"), "content": "two", "likes": J{"type": "OrderedCollection", "id": local("/notes/2/likes"), "orderedItems": remote("/likes/0")}, "shares": J{"type": "Collection", "id": local("/notes/2/shares")}},
-			local("/col/1"):    J{"type": "Collection", "id": local("/col/1"), "items": []interface{}{bob, carol}},
-			local("/col/2"):    J{"type": "Collection", "id": local("/col/2"), "items": dave},
-			local("/ocol/1"):   J{"type": "OrderedCollection", "id": local("/ocol/1"), "orderedItems": []interface{}{carol, bob, carol}},
+			alice:                   actorDoc(alice, aliceInbox),
+			dave:                    actorDoc(dave, daveInbox),
+			local("/notes/1"):       J{"type": "Note", "id": local("/notes/1"), "content": "one", "attributedTo": alice},
+			local("/notes/2"):       J{"type": "Note", "id": local("/notes/2"), "content": "two", "likes": J{"type": "OrderedCollection", "id": local("/notes/2/likes"), "orderedItems": remote("/likes/0")}, "shares": J{"type": "Collection", "id": local("/notes/2/shares")}},
+			local("/col/1"):         J{"type": "Collection", "id": local("/col/1"), "items": []interface{}{bob, carol}},
+			local("/col/2"):         J{"type": "Collection", "id": local("/col/2"), "items": dave},
+			local("/ocol/1"):        J{"type": "OrderedCollection", "id": local("/ocol/1"), "orderedItems": []interface{}{carol, bob, carol}},
 			local("/activities/f1"): J{"type": "Follow", "id": local("/activities/f1"), "actor": alice, "object": bob},
-			aliceFollowers:     J{"type": "Collection", "id": aliceFollowers, "items": []interface{}{carol}},
+			aliceFollowers:          J{"type": "Collection", "id": aliceFollowers, "items": []interface{}{carol}},
 		},
 		"inboxFor":       g.storedInboxes(),
 		"actorForOutbox": J{aliceOutbox: alice, dave + "/outbox": dave},
@@ -71,14 +71,14 @@ func (g *sgen) baseWorld() J {
 		"following":      J{alice: J{"type": "Collection", "id": aliceFollowing}},
 		"liked":          J{alice: J{"type": "Collection", "id": aliceLiked, "items": remote("/notes/0")}},
 		"remote": J{
-			bob:                  actorDoc(bob, bobInbox),
-			carol:                actorDoc(carol, carolInbox),
-			remote("/notes/9"):   J{"type": "Note", "id": remote("/notes/9"), "content": "nine", "inReplyTo": local("/notes/1")},
-			remote("/notes/8"):   J{"type": "Note", "id": remote("/notes/8"), "content": "eight"},
-			remote("/col/r"):     J{"type": "Collection", "id": remote("/col/r"), "items": []interface{}{carol, remote("/col/r2")}},
-			remote("/col/r2"):    J{"type": "OrderedCollection", "id": remote("/col/r2"), "orderedItems": []interface{}{bob, remote("/col/r")}},
-			remote("/garbage"):   J{"__raw": "<html>not json</html>"},
-			remote("/unknown"):   J{"type": "Gizmo", "id": remote("/unknown")},
+			bob:                      actorDoc(bob, bobInbox),
+			carol:                    actorDoc(carol, carolInbox),
+			remote("/notes/9"):       J{"type": "Note", "id": remote("/notes/9"), "content": "nine", "inReplyTo": local("/notes/1")},
+			remote("/notes/8"):       J{"type": "Note", "id": remote("/notes/8"), "content": "eight"},
+			remote("/col/r"):         J{"type": "Collection", "id": remote("/col/r"), "items": []interface{}{carol, remote("/col/r2")}},
+			remote("/col/r2"):        J{"type": "OrderedCollection", "id": remote("/col/r2"), "orderedItems": []interface{}{bob, remote("/col/r")}},
+			remote("/garbage"):       J{"__raw": "<html>not json</html>"},
+			remote("/unknown"):       J{"type": "Gizmo", "id": remote("/unknown")},
 			remote("/activities/f2"): J{"type": "Follow", "id": local("/activities/f1"), "actor": alice, "object": bob},
 			remote("/activities/l1"): J{"type": "Like", "id": remote("/activities/l1"), "actor": bob, "object": local("/notes/1")},
 		},
